@@ -21,6 +21,8 @@ SegStr  == {<<"a">>, <<"b">>}
 Segs    == {SSeg(w) : w \in SegStr} \cup {PSeg}
 RoutesN == UNION {[1..n -> Segs] : n \in 0..MaxDepth}
 NParams(r) == Cardinality({i \in DOMAIN r : r[i].k = "P"})
+MountPres == RoutesN                 \* (a config may replace it, e.g. by StaticPairs: mount prefixes of two static segments)
+StaticPairs == {<<SSeg(x), SSeg(y)>> : x \in SegStr, y \in SegStr}
 MethodSets ==
   CASE MSETS = "one"   -> {<<"GET">>, <<"POST">>}
     [] MSETS = "small" -> {<<"GET">>, <<"POST">>, <<"GET", "POST">>, <<"PUT", "DELETE">>, <<"GET", "PUT">>}
@@ -75,7 +77,7 @@ Finish(k) == /\ ~done /\ mountedSet = 2..NApps /\ \A a \in 1..NApps : \E it \in 
              /\ done' = TRUE /\ UNCHANGED <<apps, mountedSet, nextH>>
 
 Next == \/ \E a \in 1..NApps : \E r \in RoutesN : \E ms \in MethodSets : AddRoute(a, r, ms)
-        \/ \E a \in 1..NApps : \E pre \in RoutesN : \E b \in 2..NApps : AddMount(a, pre, b)
+        \/ \E a \in 1..NApps : \E pre \in MountPres : \E b \in 2..NApps : AddMount(a, pre, b)
         \/ \E k \in 1..(IF NPOL = 0 THEN Len(PolicySeq) ELSE NPOL) : Finish(k)
 Spec == Init /\ [][Next]_vars
 
@@ -105,5 +107,8 @@ Reqs(ap) ==
      \cup {MkReq("OPTIONS", ns[i], PfMethods[(i % np) + 1], i) : i \in DOMAIN ns}
      \cup {MkReq(SimpleMethods[(i % nm) + 1], ns[i], "", i + 1) : i \in DOMAIN ns}
 
-Emit == done => PrintT(ToJson([policy |-> pol, apps |-> apps, reqs |-> SetToSeq(Reqs(apps))]))
+\* every other mounted application carries a gate: a fang of its own that refuses (401) every request but OPTIONS before the handler --
+\* an error response produced INSIDE the application that carries the CORS fang, which must leave with the CORS headers like any other
+Gate(a) == IF a > 1 /\ (Fp + a) % 2 = 0 THEN <<1>> ELSE <<>>
+Emit == done => PrintT(ToJson([policy |-> pol, apps |-> [a \in DOMAIN apps |-> [apps[a] EXCEPT !.fangs = Gate(a)]], reqs |-> SetToSeq(Reqs(apps))]))
 =============================================================================
